@@ -124,7 +124,7 @@ ADDED = {
  "C10": " Reference-written layouts include entries named like another entry plus a temporary-file / backup suffix. Long, mostly non-saved file lists (255, 256, 257, 300 entries); seven comment shapes; parity columns around every 64 KiB multiple.",
  "C11": " Dimensions 257 and 300 in the quick tier; small matrices whose elimination factors are the table's top constants are recorded again under other GOMAXPROCS values. RowReduceForInverse with the right-hand side (N_L | I) the coder passes.",
  "C13": " The goroutine count varies with the case; data state 'all protected files gone' within capacity. Data state 'zerotail': a data file lost some of the zero bytes its last slice ends in. Length fields that swallow the next packet; sixteen bytes of packet magic plus an extreme length inside packet bodies; a returned result must count every intact recovery block.",
- "C14": " Convergence includes the within-capacity clauses (once the recovery files present suffice, Repair succeeds). Zero-tail scenario (slices all in place, file too short).",
+ "C14": " Convergence includes the within-capacity clauses (once the recovery files present suffice, Repair succeeds). Zero-tail scenario (slices all in place, file too short). Instance i5 (three files, one recovery block, contents rotated among the names with one slice corrupted) with the clause that a Repair giving up for lack of recovery blocks loses no slice present anywhere before (C14_FailureLosesNoSlice, P_C14d).",
  "C15": " Create refusal cases include siblings whose names merely start with the archive directory's name; names include the compound component x/.. Every refusal case again over the complete output of an earlier, larger Create under the same index name.",
  "C17": " Dimensions: five input orders, goroutine counts incl. 3, default slice size, and 'prior' (the directory already holds longer files under the names Create writes). An input that is a symbolic link to another input; prior 'staleother' (output of an earlier Create over inputs differing only beyond the first 16 KiB). Goroutine count 2 in the quick tier. The first input listed a second time (set 5), in every spelling.",
  "C19": " PAR1 sets of 255, 256, 257 and 300 entries. Two related fields extreme at once: full cross product for seven field pairs (enumerated by the model); optional packets and non-recovery-set files as valid structural mutations. Count and exponent mutants again in a PAR2 world with slice size 4096. A volume without main packet combined with every recovery-packet mutation.",
